@@ -1,16 +1,17 @@
 #!/bin/bash
 # mutation_setup.sh: (re)creates the isolated copy used by tools/mutation_campaign.py and tools/iso_seed_run.sh:
-#   /var/tmp/mut/repo  = detached git worktree of /repo HEAD
-#   /var/tmp/mut/verif = copy of /verif (no run/, bin/, .git) whose harness module replaces the library by that worktree
-# Remove with: git -C /repo worktree remove --force /var/tmp/mut/repo; rm -rf /var/tmp/mut
+#   $M/repo  = detached git worktree of /repo HEAD
+#   $M/verif = copy of /verif (no run/, bin/, .git) whose harness module replaces the library by that worktree
+# Remove with: git -C /repo worktree remove --force $M/repo; rm -rf /var/tmp/mut
 set -e
-mkdir -p /var/tmp/mut
-if [ ! -d /var/tmp/mut/repo ]; then git -C /repo worktree add -q --detach /var/tmp/mut/repo HEAD; fi
-git -C /var/tmp/mut/repo checkout -q --detach "$(git -C /repo rev-parse HEAD)"; git -C /var/tmp/mut/repo checkout -q -- .
-rsync -a --delete --exclude run --exclude bin --exclude .git --exclude evidence /verif/ /var/tmp/mut/verif/
-mkdir -p /var/tmp/mut/verif/evidence
-cd /var/tmp/mut/verif
-sed -i 's#=> /repo#=> /var/tmp/mut/repo#' harness/go.mod
-sed -i 's#"/repo/go.sum"#"/var/tmp/mut/repo/go.sum"#' check
-sed -i 's#"/repo/dhcpv4/\*.go"#"/var/tmp/mut/repo/dhcpv4/*.go"#' harness/c15/c15_test.go
+M=${MUTROOT:-/var/tmp/mut}
+mkdir -p $M
+if [ ! -d $M/repo ]; then git -C /repo worktree add -q --detach $M/repo HEAD; fi
+git -C $M/repo checkout -q --detach "$(git -C /repo rev-parse HEAD)"; git -C $M/repo checkout -q -- .
+rsync -a --delete --exclude run --exclude bin --exclude .git --exclude evidence /verif/ $M/verif/
+mkdir -p $M/verif/evidence
+cd $M/verif
+sed -i "s#=> /repo#=> $M/repo#" harness/go.mod
+sed -i "s#\"/repo/go.sum\"#\"$M/repo/go.sum\"#" check
+sed -i "s#\"/repo/dhcpv4/\*.go\"#\"$M/repo/dhcpv4/*.go\"#" harness/c15/c15_test.go
 echo "isolated copy ready"
